@@ -130,7 +130,7 @@ def run(chk):
         progs.append(("corpus:" + name, {"program": src, "path": "/c19_%s.ts" % name, "modules": {}}))
     for name, src in list(c07.T.items()):
         progs.append(("await:" + name, {"program": c07.H + src, "path": "/c19_t.ts", "modules": {}}))
-    n_graphs = 60 if chk.tier == "quick" else 600
+    n_graphs = 60 if chk.tier == "quick" else 3000
     for i in range(n_graphs):
         n = 2 + rng.below(5)
         deps, main = c09.gen_graph(rng, n)
